@@ -27,12 +27,40 @@ class PickleStream(Foreign):
             return None
         if name in ('flush',):
             return None
+        if name in ('write',) and len(args) == 1 and isinstance(args[0], PickleBytes):
+            self.items.append(args[0].obj)          # the bytes of one whole pickle written to the file: one item of the stream
+            return None
         if name in ('write',):
             self.raw.append(args)
             self.items.append(('RAW', args))
             return None
         if name in ('read', 'readline', 'tell', 'seek'):
             return Unk('raw %s on the results file' % name, node)
+        return NotImplemented
+
+
+class PickleBytes(Foreign):
+    """pickle.dumps(obj): the bytes of one pickle, carried as the object they hold"""
+    def __init__(self, obj):
+        self.obj = obj
+
+
+class _Pickler(Foreign):
+    """pickle.Pickler(handle, protocol): dump(obj) appends one item to the stream"""
+    def __init__(self, stream):
+        self.stream = stream
+
+    def sl_method(self, interp, name, args, kw, node):
+        if name == 'dump' and len(args) == 1:
+            self.stream.items.append(args[0])
+            return None
+        if name == 'clear_memo':
+            return None
+        return NotImplemented
+
+    def sl_getattr(self, interp, name, node):
+        if name == 'memo':
+            return {}
         return NotImplemented
 
 
@@ -58,6 +86,12 @@ class RecHooks(Hooks):
             return _load(args[0])
         if name in ('pickle.Unpickler', '_pickle.Unpickler') and args and isinstance(args[0], PickleStream):
             return _Unpickler(args[0])
+        if name in ('pickle.Pickler', '_pickle.Pickler') and args and isinstance(args[0], PickleStream):
+            return _Pickler(args[0])
+        if name in ('pickle.dumps', '_pickle.dumps') and args:
+            return PickleBytes(args[0])
+        if name in ('pickle.loads', '_pickle.loads') and args and isinstance(args[0], PickleBytes):
+            return args[0].obj
         if name.startswith('os.path.exists'):
             return True
         return NotImplemented
@@ -123,6 +157,8 @@ def write_records(repo, infos):
         if isinstance(r, Unk):
             return st, I, r
     I.call(repo.find_member(ci, 'close')[1], [], selfv=f)
+    if I.lost:
+        return st, I, Unk('a call of the writer was not modelled (%s): what the stream holds is not all that was written' % (str(I.lost[0])[:100],))
     return st, I, None
 
 
@@ -134,6 +170,8 @@ def read_records(repo, items, cut=None):
     if isinstance(f, Unk):
         return f, I, None
     out = I.iterate_obj(f, None)
+    if I.lost and isinstance(out, list):
+        out = Unk('a call of the reader was not modelled (%s)' % (str(I.lost[0])[:100],))
     return out, I, f
 
 
@@ -186,6 +224,8 @@ def check_write_read(ctx, rule_w='CFG-2', rule_r='AGREE-2'):
     other = make_info(repo, 9, make_meta(repo, 'x'))
     st2, Iw2, err2 = write_records(repo, [infos[0], other])
     refused = isinstance(err2, Unk) and 'always raises' in err2.why
+    if err2 is None and (getattr(Iw2, '_unknown_conds', 0) or Iw2.lost):
+        err2 = Unk('a condition on the way was not decided')          # the record went through, but past a test the analysis could not decide
     ctx.expect(refused or err2 is None and False, rule_w, 'a record with different metadata is refused', where_w, 'write() raises', 'a record whose metadata differs from the first one is written under the first one\'s header' if err2 is None else 'not modelled: %r' % (err2,), 'meta-mismatch') if (refused or err2 is None) else ctx.undecided(rule_w, 'a record with different metadata is refused', where_w, 'not modelled: %r' % (err2,))
     # read back
     out, Ir, f = read_records(repo, st.items)
